@@ -12,6 +12,7 @@ import YtkProofs.ValidB
 import YtkProofs.Decisions2
 import YtkModel.Generated.Constants
 import YtkProofs.FuncsPlpc
+import YtkProofs.FuncsPlpcGroups
 
 namespace Ytk.C08
 
@@ -313,6 +314,43 @@ theorem nonvacuous_ParseListPathComponent :
 theorem ParseListPathComponent_signed_group_counterexample :
     Funcs.ParseListPathComponent "a[1][-2]" = .ok ("a", [1, -2], true)
       ∧ parseListComp "a[1][-2]" = some ("a", [1, 0]) := by
+  decide
+
+end Ytk.C08
+
+/-! ## `ParseListPathComponent_generated_eq_model` under a READABLE hypothesis -/
+namespace Ytk.C08
+open Ytk.Generated
+
+/-- the domain predicate `PlpcGroupsOk` follows from the shape of flatten-style list path components:
+    a bracket-free name followed by bracket groups of at most 18 ASCII digits each (18 digits are
+    below 10^18 < 2^63: strconv.Atoi cannot overflow) -/
+theorem plpcGroupsOk_of_digit_groups (c : List Char) (h : PlpcShape c) (fuel : Nat) : PlpcGroupsOk fuel c :=
+  plpcGroupsOk_of_shape c h fuel
+
+/-- utils.ParseListPathComponent, as translated, on every component `name[g₁]…[gₖ]` whose name is
+    bracket-free and whose groups are strings of at most 18 digits (`PlpcShape`): it is the model's
+    `parseListComp` (corollary of `ParseListPathComponent_generated_eq_model`) -/
+theorem ParseListPathComponent_generated_eq_model_digits (c : String) (h : PlpcShape c.toList) :
+    Funcs.ParseListPathComponent c
+      = (if hasIdxGroup c.toList then
+           (match parseListComp c with
+            | some (n, is) => .ok (n, is.map Int.ofNat, true)
+            | none => .panic)
+         else .ok ("", [], false)) :=
+  ParseListPathComponent_generated_eq_model c (plpcGroupsOk_of_shape _ h _)
+
+theorem nonvacuous_ParseListPathComponent_digits :
+    PlpcShape "ab[12][3]".toList ∧ PlpcShape "plain".toList ∧
+    Funcs.ParseListPathComponent "ab[12][3]" = .ok ("ab", [12, 3], true) := by
+  refine ⟨⟨"ab".toList, ["12".toList, "3".toList], by decide, by decide, by decide, by decide⟩,
+    ⟨"plain".toList, [], by decide, by decide, by decide, by decide⟩, by decide⟩
+
+/-- 18 is not arbitrary but the bound cannot be dropped: a 19-digit group above 2^63−1 is clamped by
+    strconv.Atoi (error dropped by the code) while the model reads the digits -/
+theorem ParseListPathComponent_overflow_group_counterexample :
+    (Funcs.ParseListPathComponent "a[9999999999999999999]") = .ok ("a", [9223372036854775807], true)
+      ∧ parseListComp "a[9999999999999999999]" = some ("a", [9999999999999999999]) := by
   decide
 
 end Ytk.C08
